@@ -307,7 +307,23 @@ func runC17(c *core.Ctx) {
 				}
 			}
 			notOK, errNil := false, false
-			for _, cnd := range core.EdgeFacts(st.Block()) {
+			_ = notOK
+			_ = errNil
+		})
+		// the wrong-type report may sit in an unexported helper called on the not-ok edge: the facts of the helper's
+		// block and of every call on the way down are taken together
+		for _, fd := range core.DeepFind(p, dec, func(ins ssa.Instruction) bool {
+			st, ok := ins.(*ssa.Store)
+			return ok && core.FieldKey(st.Addr) == "ResponseWithError.Err"
+		}) {
+			st := fd.Ins.(*ssa.Store)
+			var facts []core.Cond
+			facts = append(facts, core.EdgeFacts(st.Block())...)
+			for _, call := range fd.Stack {
+				facts = append(facts, core.EdgeFacts(call.Block())...)
+			}
+			notOK, errNil := false, false
+			for _, cnd := range facts {
 				nn := core.Normalize(cnd)
 				if ex, isE := nn.V.(*ssa.Extract); isE && ex.Index == 1 && !nn.True {
 					if ta, isTA := ex.Tuple.(*ssa.TypeAssert); isTA && ta.CommaOk {
@@ -328,7 +344,7 @@ func runC17(c *core.Ctx) {
 			if notOK && errNil && !core.IsNilConst(st.Val) {
 				typeStored = true
 			}
-		})
+		}
 		c.Check(readStored && typeStored, "R4", "decodeResponseBody/failures-become-Err", p.Pos(dec.Pos()), "read error stored as Err; a wrong-typed result without an error gets one",
 			fmt.Sprintf("decodeResponseBody drops a failure (read error stored=%v, wrong-type result reported=%v): the caller sees Err == nil with no decoded target", readStored, typeStored))
 		c.Check(bad == "" && n > 0, "R4", "decodeResponseBody/assertion", p.Pos(dec.Pos()), "assertion on the deserializer's result is comma-ok", bad+map[bool]string{true: "no assertion on a deserializer result found", false: ""}[n == 0 && bad == ""])
